@@ -171,10 +171,13 @@ Proof.
   - now rewrite Nat.add_0_r, <- surjective_pairing.
   - replace (Z.of_nat j + 1)%Z with (Z.of_nat (S j)) by lia.
     replace (j + S c)%nat with (S j + c)%nat by lia. rewrite <- IH. cbn [LegP fst snd].
-    f_equal. unfold two, one. cbn. rewrite <- INR_IZR_INZ. reflexivity.
+    f_equal. unfold two, one. cbn. rewrite <- INR_IZR_INZ. unfold Rdiv. rewrite ?Rinv_1, ?Rmult_1_r. reflexivity.
 Qed.
 Theorem legendre_is_Leg n z : legendre ROps n 0%Z z (one ROps) (zero ROps) = LegP n z.
-Proof. exact (legendre_LegP n 0%nat z). Qed.
+Proof.
+  replace (one ROps) with 1 by (unfold one; cbn; field). replace (zero ROps) with 0 by (unfold zero; cbn; field).
+  exact (legendre_LegP n 0%nat z).
+Qed.
 
 (** derivatives, by the differentiated recurrence *)
 Fixpoint dLegP (k : nat) (z : R) : R * R :=
@@ -255,9 +258,9 @@ Theorem newton_step_R f n z : z * z <> 1 ->
 Proof.
   intros Hz. rewrite newton_unfold, legendre_is_Leg. rewrite (surjective_pairing (LegP n z)).
   cbn [nleb nabs nsub ndiv nmul ROps]. fold (Leg n z).
-  replace (one ROps) with 1 by reflexivity.
+  replace (one ROps) with 1 by (unfold one; cbn; field).
   rewrite (pp_is_derivative n z Hz). unfold newton_next.
-  replace (gl_eps ROps) with eps14 by (unfold gl_eps, ndec, eps14; cbn; reflexivity).
+  replace (gl_eps ROps) with eps14 by (unfold gl_eps, eps14; cbn; reflexivity).
   reflexivity.
 Qed.
 
